@@ -111,7 +111,12 @@ func c13Pool(kind string, variant string) []ap.Item {
 		k := int(variant[len(variant)-1] - '0')
 		var out []ap.Item
 		for i := 0; i < 6; i++ {
-			out = append(out, all[(3*k+i)%len(all)])
+			m := all[(3*k+i)%len(all)]
+			if strings.HasPrefix(variant, "richval") {
+				// the same members held by value: every type, intransitive activities, places and pages included
+				m = reflect.ValueOf(m).Elem().Interface().(ap.Item)
+			}
+			out = append(out, m)
 		}
 		return out
 	}
@@ -161,7 +166,7 @@ func c13KindVariants() [][2]string {
 	}
 	for _, k := range c13Containers {
 		if k != "IRIs" {
-			for _, v := range []string{"rich0", "rich1", "rich2", "rich3", "rich4"} {
+			for _, v := range []string{"rich0", "rich1", "rich2", "rich3", "rich4", "richval0", "richval1", "richval2", "richval3", "richval4"} {
 				out = append(out, [2]string{k, v})
 			}
 			for i := 0; i < 13; i++ {
@@ -301,7 +306,7 @@ func c13NonTrivial(hist []c13Op) bool {
 func TestC13(t *testing.T) {
 	r := ev.Open(t, "C13")
 	defer r.Close(t)
-	r.Rule("histories over a pool of items with pairwise non-equivalent ids in mixed shapes (IRI, Object, Actor, Activity; held by pointer, in the /val variant by value, in the /near variant with ids that differ only in their query, port or last path segment, in the /opaque variant with URIs that have no authority: urn:, acct:, did:, mailto:, tag:, and in the /rich0-4 variants with members of all 13 object types holding every property their type has, pages also nested in an object's replies, and in the /twin0-12 variants with six members of one type that hold the same in every property and differ in their ids only): every history of Append(1 or 2 items)/Remove/Contains " +
+	r.Rule("histories over a pool of items with pairwise non-equivalent ids in mixed shapes (IRI, Object, Actor, Activity; held by pointer, in the /val variant by value, in the /near variant with ids that differ only in their query, port or last path segment, in the /opaque variant with URIs that have no authority: urn:, acct:, did:, mailto:, tag:, and in the /rich0-4 variants with members of all 13 object types holding every property their type has, pages also nested in an object's replies; in the /richval0-4 variants the same members held by value; and in the /twin0-12 variants with six members of one type that hold the same in every property and differ in their ids only): every history of Append(1 or 2 items)/Remove/Contains " +
 		"up to the length bound over a 3-item pool for each of the 6 containers (Remove through ToItemCollection(container); not offered for IRIs whose item-list view is a copy), then random " +
 		"histories over a 6-item pool; after every step Count(), Collection() order and Contains() of every pool item are compared with a reference ordered set. " +
 		"non-trivial = a Remove after >= 2 appended items or a re-Append of an item seen before; distinct by container + op sequence")
